@@ -817,6 +817,43 @@ def self_unsubscribe_probe(kind):
     return simnet.run(go)
 
 
+def raising_state_callback_probe(n_reads):
+    """A connected peripheral with `n_reads` GATT reads in flight; the device reports that the peripheral's connection dropped and the
+    application's connection-state callback raises. Whatever becomes of the session, every read in flight on that address ends
+    at once with an error (the connection-dropped error, or the session's error): none stays pending. Returns (outcomes, pending)."""
+    async def go(loop):
+        from aioesphomeapi import api_pb2 as pb
+        net = simnet.Net(loop)
+        loop.set_exception_handler(lambda l, ctx: None)
+        with net.patched():
+            cli, tr = await simnet.connected_client(loop, net)
+
+            def on_state(connected, mtu, error):
+                if not connected:
+                    raise KeyError("application bookkeeping failed")
+            t = asyncio.ensure_future(cli.bluetooth_device_connect(A1, on_state, timeout=5.0))
+            await simnet.drain(loop)
+            tr.feed(simnet.plain_msg(pb.BluetoothDeviceConnectionResponse(address=A1, connected=True, mtu=23)))
+            await simnet.drain(loop)
+            await t
+            reads = [asyncio.ensure_future(cli.bluetooth_gatt_read(A1, 10 + k, timeout=30.0)) for k in range(n_reads)]
+            await simnet.drain(loop)
+            tr.feed(simnet.plain_msg(pb.BluetoothDeviceConnectionResponse(address=A1, connected=False, error=19)))
+            await simnet.drain(loop)
+            pending = sum(1 for r in reads if not r.done())
+            outs = sorted({("pending" if not r.done() else "cancelled" if r.cancelled() else type(r.exception()).__name__ if r.exception() else "result") for r in reads})
+            for r in reads:
+                if not r.done():
+                    r.cancel()
+            try:
+                await cli.disconnect(force=True)
+            except Exception:  # noqa: BLE001
+                pass
+            await simnet.drain(loop)
+        return outs, pending
+    return simnet.run(go)
+
+
 def run(rep, tier, seed):
     rng = random.Random(seed)
     rep.coverage["rule"] = (
@@ -868,6 +905,14 @@ def run(rep, tier, seed):
     rep.bump("probe:refused-operations")
     if problems:
         rep.violation("C16/left-subscribed", f"{problems[0]}; {len(problems)} such call(s): a finished operation leaves nothing subscribed", {"kind": "refused-operations"})
+    for n_reads in (1, 4, 12):
+        outs, pending = raising_state_callback_probe(n_reads)
+        rep.case(("raising-state-callback", n_reads), True, sample={"raising_state_callback": n_reads, "outcomes": outs, "pending": pending})
+        rep.bump("probe:raising-state-callback")
+        if pending or "result" in outs:
+            rep.violation("C16/not-failed-on-drop", f"peripheral with {n_reads} read(s) in flight, the device reports its connection dropped and the application's connection-state "
+                          f"callback raises: {pending} read(s) still pending, outcomes {outs} - a connection-state change for its address fails the operation",
+                          {"kind": "raising-state-callback", "reads": n_reads})
     for kind in ("notify", "connstate"):
         problems = self_unsubscribe_probe(kind)
         rep.case(("self-unsubscribe", kind), True, sample={"self_unsubscribe": kind, "problems": problems[:3]})
@@ -896,6 +941,10 @@ def replay(path):
     common.setup_impl_path()
     load_consts()
     d = json.loads(open(path).read())["replay"]
+    if d.get("kind") == "raising-state-callback":
+        r = raising_state_callback_probe(d["reads"])
+        print(r)
+        return 1 if r[1] else 0
     if d.get("kind") == "refused-operations":
         problems = refused_operation_probe()
         print(problems)
